@@ -34,6 +34,10 @@ def insert_hugr_is_isomorphic_embedding(dels):
     store.attach_links(b, blinks, {i: 2 for i in live if i != 0})
     alinks = [store.Link(True, 1, 0, 2, 1)] if P(True, False) else store.sym_links(1, 3, tag="al")
     a, anodes = store.make_store(3, alinks)
+    if sym.concretize(sym.bool("A_has_freed_index")):
+        # A deleted a node earlier: the first inserted node reuses its index (and must not inherit anything from it)
+        gone = a.add_node(store.node_op(7), num_outs=sym.concretize(sym.int("freed.count", 0, 2)), metadata={"stale": True})
+        a.delete_node(gone)
     par = anodes[sym.concretize(sym.int("parent", 0, P(1, 2)))]
     a_before = [(n.idx, a[n].op, a[n].parent, [c.idx for c in a.children(n)]) for n in a]
     b_nodes_before = [(n.idx, b[n].op, b[n].parent, [c.idx for c in b.children(n)], dict(b[n].metadata)) for n in b]
@@ -41,6 +45,7 @@ def insert_hugr_is_isomorphic_embedding(dels):
     sym.check("mapping_domain_is_B_nodes", sorted(k.idx for k in mapping) == live)
     new = [v.idx for v in mapping.values()]
     sym.check("mapping_injective_onto_fresh_nodes", len(set(new)) == len(new) and all(i >= 3 for i in new))
+    sym.check("handles_in_mapping_carry_the_count", all(v._num_out_ports == b[k]._num_outs or v._num_out_ports is None for k, v in mapping.items()))
     mu = {k.idx: v for k, v in mapping.items()}
     ok = True
     for i in live:
@@ -55,8 +60,7 @@ def insert_hugr_is_isomorphic_embedding(dels):
     sym.check("ops_hierarchy_child_order_metadata_preserved", ok)
     okc = True
     for i in live:
-        if i != 0:
-            okc = sym.and_(okc, a.num_out_ports(mu[i]) == b.num_out_ports(Node(i)))
+        okc = sym.and_(okc, a.num_out_ports(mu[i]) == b.num_out_ports(Node(i)))
     sym.check("output_port_counts_preserved", okc)
     sym.check("root_hangs_under_requested_parent_as_last_child", a.children(par)[-1] == mu[0])
     # links: ordered per-port lists of the image, both ends (quick: at the ports of B's first link; thorough: at any port)
